@@ -331,6 +331,91 @@ def check_c17(tier, seed):
     return v.finish("model_checking", cov, ["memory handed to free() is inspected at the wrap seam; copies the library might keep elsewhere (stack, registers) are not"], exhaustive=True)
 
 
+def check_c18(tier, seed):
+    v = Verdict("C18", tier, seed)
+    st = new_stage()
+    merged = Merged()
+    cov_flags = "-O1 -g -fsanitize-coverage=edge,trace-loads,trace-stores"
+    lib = mkbuild("cov", cc="clang", common=cov_flags + " -Wall").build(st)
+    ctl = os.path.join(st, "ctl_race.o")
+    vplib.sh(["clang"] + cov_flags.split() + ["-c", os.path.join(VERIF, "harness", "ctl_race.c"), "-o", ctl])
+    runs = []
+    # unpinned: the library's own CPU probes run inside the threads
+    b0 = build_harness(st, lib, "thr-unpinned", ["common.c", "pin.c", "families.c", "h_thr.c"], wraps=["calloc", "free"], extra_ld=[ctl])
+    runs.append((b0, "unpinned", 2))
+    b1 = build_harness(st, lib, "thr-pinned", ["common.c", "pin.c", "families.c", "h_thr.c"], wraps=["calloc", "free"] + WRAP_PIN, extra_ld=[ctl], defs=["-DUSE_PIN"])
+    for be in (0, 1):
+        runs.append((b1, "pinned-be%d" % be, be))
+    per = {}
+    for binary, label, maxbe in runs:
+        args = ["--tier", tier, "--seed", str(seed), "--label", label, "--maxbe", str(maxbe)]
+        spec = {"sources": ["common.c", "pin.c", "families.c", "h_thr.c"], "special": "c18", "label": label, "maxbe": maxbe, "args": args}
+        m = Merged()
+        for res in run_sharded(binary, args, st, "thr-" + label, nshards=NCPU):
+            m.add(res, spec); merged.add(res, spec)
+        v.handle(m, make_replayer(binary, args))
+        per[label] = m.evaluations
+    # free-running ThreadSanitizer pass over the same operation bodies
+    tsan = tsan_pass(st, tier)
+    points = sum(val for k, val in merged.notes.items() if k.startswith("scheduling_points_executed"))
+    wtot = sum(val for k, val in merged.notes.items() if k.startswith("conflict_granules_total"))
+    combos = sum(val for k, val in merged.notes.items() if k.startswith("combinations["))
+    cov = {"states": int(combos), "transitions": merged.evaluations, "traces_validated_against_impl": merged.traces,
+           "evaluations": merged.evaluations, "distinct_nontrivial": merged.distinct,
+           "rule": "operation menu of 18 operations (every public function; private objects, and read-only use of shared key schedules / parallel objects); all ordered pairs as two coroutines and selected "
+                   "triples, preemption bound %d, scheduling points at accesses to the conflict set W discovered from instrumented loads/stores (library built with clang trace-loads/trace-stores); "
+                   "with W empty there is one equivalence class per combination and one execution decides it; states = thread combinations explored, transitions = executions run under the scheduler. "
+                   "Positive control (harness-owned lost update, needs one preemption) must be found in every run. Free-running ThreadSanitizer pass over the same bodies on real threads." % (3 if tier == "thorough" else 2),
+           "samples": merged.samples, "notes": merged.notes, "executions_per_variant": per, "conflict_granules": int(wtot), "scheduling_points": int(points),
+           "tsan_pass": tsan, "builds": [lib.describe()]}
+    if tsan.get("reports", 0) > 0:
+        vv = {"sig": "C18/tsan-data-race", "case": "", "detail": tsan.get("first_report", "")[:1500], "label": "tsan", "replay": None}
+        v.new.append(vv)
+    return v.finish("model_checking", cov,
+                    ["sequentially consistent memory; libc (calloc, memcpy) is atomic to the scheduler; 32-byte vector accesses are not instrumented (clang stops at 16 bytes) - the TSan pass covers them",
+                     "weak-memory reorderings are not modelled"], exhaustive=all(val == 0 for k, val in merged.notes.items() if k.startswith("executions_cap_hit")))
+
+
+def tsan_pass(st, tier):
+    """Free-running pass: the same operation bodies on real pthreads under ThreadSanitizer."""
+    lib = mkbuild("tsan", cc="clang", common="-O1 -g -fsanitize=thread -Wall").build(st)
+    binary = build_harness(st, lib, "tsan", ["h_tsan.c", "common.c"], cc="clang", cflags="-O1 -g -fsanitize=thread -Wall -Wextra -Wno-unused-parameter", ref=False,
+                           extra_ld=["-lpthread"])
+    reps = 200 if tier == "thorough" else 40
+    env = dict(os.environ); env["TSAN_OPTIONS"] = "halt_on_error=0 report_signal_unsafe=0 exitcode=66"
+    pc = vplib.sh([binary, "control"], env=env, check=False, timeout=600)
+    if "WARNING: ThreadSanitizer: data race" not in (pc.stdout or ""):
+        raise EngineError("tsan positive control (harness-owned racy counter) was not reported\n" + (pc.stdout or "")[-1500:])
+    p = vplib.sh([binary, str(reps)], env=env, check=False, timeout=3000)
+    out = p.stdout or ""
+    # cold start: the first library calls of a fresh process run concurrently (lazily initialised state)
+    cold_pairs = [(a, b) for a in range(5, 12) for b in range(a, 12)] if tier == "thorough" else [(11, 11), (5, 8), (6, 9), (7, 10), (5, 5), (8, 8), (10, 11), (6, 7)]
+    cold_n = 0
+    for rep in range(3 if tier == "thorough" else 2):
+        for a, b in cold_pairs:
+            pcold = vplib.sh([binary, "cold", str(a), str(b)] + ([str(11)] if rep else []), env=env, check=False, timeout=300)
+            cold_n += 1
+            if pcold.returncode not in (0, 66):
+                raise EngineError("tsan cold pass failed: exit %d\n%s" % (pcold.returncode, (pcold.stdout or "")[-1500:]))
+            out += pcold.stdout or ""
+    n = out.count("WARNING: ThreadSanitizer")
+    if p.returncode not in (0, 66):
+        raise EngineError("tsan pass failed to run: exit %d\n%s" % (p.returncode, out[-2000:]))
+    first = ""
+    if n:
+        i = out.index("WARNING: ThreadSanitizer")
+        first = out[i:i + 1500]
+    import re
+    m = re.search(r"tsan-pass: (\d+) thread launches, (\d+) mismatches", out)
+    res = {"reports": n, "repetitions": reps, "cold_start_processes": cold_n, "thread_launches": int(m.group(1)) if m else 0, "result_mismatches": int(m.group(2)) if m else -1, "first_report": first}
+    if m is None:
+        raise EngineError("tsan pass produced no summary\n" + out[-1500:])
+    if int(m.group(2)) > 0:
+        res["reports"] = max(res["reports"], 1)
+        res["first_report"] = res["first_report"] or "results of concurrent operations differ from sequential results in the free-running pass"
+    return res
+
+
 REGISTRY = {
     "C01": check_c01,
     "C02": check_c02,
@@ -344,4 +429,5 @@ REGISTRY = {
     "C15": check_c15,
     "C16": check_c16,
     "C17": check_c17,
+    "C18": check_c18,
 }
